@@ -73,7 +73,7 @@ Lemma parser_parse_consumes_everything source allow sq db h h' d :
                  (if allow then gen_top_on else gen_top_off) gen_default_whitespace true = POk p r eff
     /\ p_rest p = [].
 Proof.
-  unfold parser_parse. destruct parse_all_is_on as [Hoff Hon].
+  unfold parser_parse, blueprints_of, bindM. destruct parse_all_is_on as [Hoff Hon].
   replace (if allow then gen_parse_all_on else gen_parse_all_off) with true by (destruct allow; congruence).
   destruct (parse_string gen_env act (expandtabs source) _ _ _ true) as [p r eff| | | |] eqn:E; try (cbn; discriminate).
   intros _. exists p, r, eff. split; [reflexivity|]. eapply parse_string_all; eauto.
